@@ -89,12 +89,13 @@ def _validate_data_flow_compatibility(inspection: PipelineInspection) -> None:
         - Errors are added to the node that has the incompatible input type
         - Only validates consecutive data-processing nodes
     """
-    for i in range(len(inspection.nodes) - 1):
-        current_node = inspection.nodes[i]
-        next_node = inspection.nodes[i + 1]
-
-        # Skip validation if either node has no data types (e.g., context processors)
-        if current_node.output_type is None or next_node.input_type is None:
+    # Track the last data-carrying node: context-only nodes (no data types) pass
+    # the data through unchanged, so the check must look across them.
+    current_node = None
+    for next_node in inspection.nodes:
+        if current_node is None or next_node.input_type is None:
+            if next_node.output_type is not None:
+                current_node = next_node
             continue
 
         # Check if output type of current node is compatible with input type of next node
@@ -105,6 +106,8 @@ def _validate_data_flow_compatibility(inspection: PipelineInspection) -> None:
                 f"but previous node (Node {current_node.index}) outputs {current_node.output_type.__name__}"
             )
             next_node.errors.append(error_msg)
+        if next_node.output_type is not None:
+            current_node = next_node
 
 
 def validate_pipeline(inspection: PipelineInspection) -> None:
